@@ -15,7 +15,7 @@
 EXTENDS Naturals, Sequences
 
 CoreIds == {"w", "two", "empty", "bsn", "nl", "numstr", "int", "float", "posexp", "t", "null", "ref", "uni", "flow", "chain", "syn", "tens", "qop", "tens3", "slashes", "nlsp", "ann", "ctor1", "holo", "l0", "l2", "l3", "lnest", "lmatrix", "lmap", "lfalsy", "lq", "lslash", "lexpr", "z1", "zpy", "ztrail", "zseal", "zempty"}
-FullIds == {"three", "quote", "bslash", "tab", "truestr", "nullstr", "vsstr", "truedot", "neg", "zero", "one", "fzero", "fone", "big", "exp", "negexp", "bigexp", "intexp", "finf", "fninf", "f", "ver", "verpre", "var", "vartyped", "ref2b", "path", "hyph", "colon", "pct", "emoji", "alt", "con", "cat", "at", "mixed", "syn3", "slash2", "relpath", "abspath", "docpath", "sjl", "sje", "sjo", "nllead", "ctor2", "ctor0", "holoenum", "l1", "lnullmap", "lemptymap", "ltq", "lann", "lpattern", "z4", "ztab", "zblank3", "linf", "l01", "zblank"}
+FullIds == {"three", "quote", "bslash", "tab", "truestr", "nullstr", "vsstr", "truedot", "neg", "zero", "one", "fzero", "fone", "big", "exp", "negexp", "bigexp", "intexp", "f1e16", "i1e16", "f17", "finf", "fninf", "f", "ver", "verpre", "var", "vartyped", "ref2b", "path", "hyph", "colon", "pct", "emoji", "alt", "con", "cat", "at", "mixed", "syn3", "slash2", "relpath", "abspath", "docpath", "sjl", "sje", "sjo", "nllead", "ctor2", "ctor0", "holoenum", "l1", "lnullmap", "lemptymap", "ltq", "lann", "lpattern", "z4", "ztab", "zblank3", "linf", "l01", "zblank"}
 ValIds == CoreIds \cup FullIds
 ZoneIds == {"z1", "zpy", "z4", "ztrail", "zseal", "zempty", "ztab", "zblank3", "zblank"}
 ListIds == {"holo", "holoenum", "l0", "l1", "l2", "l3", "lnest", "lmatrix", "lmap", "lfalsy", "lnullmap", "lemptymap", "lq", "ltq", "lslash", "lexpr", "lann", "lpattern", "linf", "l01"}
@@ -48,6 +48,9 @@ Abs(v) ==
     [] v = "posexp" -> [t |-> "float", s |-> "2.5e-07", xs |-> <<>>]
     [] v = "bigexp" -> [t |-> "float", s |-> "1.5e+16", xs |-> <<>>]
     [] v = "intexp" -> [t |-> "float", s |-> "1e+22", xs |-> <<>>]
+    [] v = "f1e16" -> [t |-> "float", s |-> "1e+16", xs |-> <<>>]
+    [] v = "i1e16" -> [t |-> "int", s |-> "10000000000000000", xs |-> <<>>]
+    [] v = "f17" -> [t |-> "float", s |-> "0.30000000000000004", xs |-> <<>>]
     [] v = "finf" -> [t |-> "float", s |-> "inf", xs |-> <<>>]
     [] v = "fninf" -> [t |-> "float", s |-> "-inf", xs |-> <<>>]
     [] v = "t" -> [t |-> "bool", s |-> "true", xs |-> <<>>]
@@ -159,6 +162,11 @@ Spell(v) ==
         <<[k |-> "first", c |-> <<"15000000000000000.0">>]>>>>
     [] v = "intexp" -> <<<<[k |-> "first", c |-> <<"1e+22">>]>>,
         <<[k |-> "first", c |-> <<"1e22">>]>>>>
+    [] v = "f1e16" -> <<<<[k |-> "first", c |-> <<"1e+16">>]>>,
+        <<[k |-> "first", c |-> <<"1e16">>]>>,
+        <<[k |-> "first", c |-> <<"10000000000000000.0">>]>>>>
+    [] v = "i1e16" -> <<<<[k |-> "first", c |-> <<"10000000000000000">>]>>>>
+    [] v = "f17" -> <<<<[k |-> "first", c |-> <<"0.30000000000000004">>]>>>>
     [] v = "finf" -> <<<<[k |-> "first", c |-> <<"1e999">>]>>,
         <<[k |-> "first", c |-> <<"1e400">>]>>,
         <<[k |-> "first", c |-> <<"2.5E+308">>]>>>>
